@@ -78,7 +78,11 @@ func validateEndBuf(src []byte, cursor int64) error {
 			cursor++
 			continue
 		case nul:
-			return nil
+			if cursor == int64(len(src))-1 {
+				// the terminator that was appended to the text
+				return nil
+			}
+			// a NUL byte of the text itself
 		}
 		return errors.ErrSyntax(
 			fmt.Sprintf("invalid character '%c' after top-level value", src[cursor]),
